@@ -2,18 +2,21 @@
 // common declarations for harnesses: symbolic inputs + assert/assume that work both under cbmc (through ll2c) and natively (replay)
 #include <cstddef>
 extern "C" {
-bool nondet_bool();
-unsigned char nondet_uchar();
-int nondet_int();
-unsigned nondet_uint();
-long nondet_long();
-void __CPROVER_assume(bool);
-void __CPROVER_assert(bool, const char *);
+bool nondet_bool() noexcept;
+unsigned char nondet_uchar() noexcept;
+int nondet_int() noexcept;
+unsigned nondet_uint() noexcept;
+long nondet_long() noexcept;
+void __CPROVER_assume(bool) noexcept;
+void __CPROVER_assert(bool, const char *) noexcept;
 }
+// shape parameters: concrete per cbmc query (the driver passes -DVERIF_PARAM_k=value to cbmc, so one translation
+// serves every shape and symbolic execution sees constants); opaque to clang so the code stays generic.
+extern "C" int verif_param(int k) noexcept;
+#define PARAM(k) verif_param(k)
 #define ASSUME(c) __CPROVER_assume(c)
 #define CHECK(c, msg) __CPROVER_assert((c), msg)
-#ifdef WITNESS
-#define WITNESS_POINT() __CPROVER_assert(false, "WITNESS")
-#else
-#define WITNESS_POINT() ((void)0)
-#endif
+// vacuity guard: every harness ends with WITNESS_POINT(); cbmc must report the assertion it expands to as FAILED
+// (= some execution satisfies all assumptions and reaches the end of the harness).  Natively it is a no-op.
+extern "C" void __verif_witness() noexcept;
+#define WITNESS_POINT() __verif_witness()
